@@ -147,8 +147,8 @@ func oracle(c Case) *ev.Verdict {
 	inline := enumrule.Inline(ref.Items)
 	for _, ex := range c.Examples {
 		exi, ok := exampleItem(ex)
-		if !ok {
-			continue
+		if !ok || strings.TrimSpace(ex) != ex {
+			continue // (a literal with blanks or line breaks around it would move the annotation to another line)
 		}
 		tpl := templates[c.Template%len(templates)]
 		named := sut.Observe(sut.Project{Root: fill(tpl, ex, "@e"), Rules: []sut.Named{{Name: "@e", Text: c.Text}}})
